@@ -171,7 +171,25 @@ def coq_fn(name, f):
     s += "  if %s then Err ERange else Ok v.\n" % cmpf
     return s
 
-def render(seek_rs):
+CMPS = {">": "(%(b)s <? %(a)s)%%N", ">=": "(%(b)s <=? %(a)s)%%N", "<": "(%(a)s <? %(b)s)%%N", "<=": "(%(a)s <=? %(b)s)%%N"}
+
+def parse_in_gap(index_rs):
+    """fn in_gap(val, gap_start) -> bool { let reach = MAX_SMALL_TS; val CMP gap_start + reach }"""
+    t = strip_comments(index_rs)
+    m = re.search(r"fn\s+in_gap\s*\(\s*val\s*:\s*Timestamp\s*,\s*gap_start\s*:\s*Timestamp\s*\)\s*->\s*bool\s*\{\s*let\s+reach\s*=\s*MAX_SMALL_TS\s*;\s*val\s*(>=|<=|>|<)\s*gap_start\s*\+\s*reach\s*\}", t)
+    if not m:
+        raise NoMatch("fn in_gap in series/data/index.rs (`let reach = MAX_SMALL_TS; val CMP gap_start + reach`)")
+    return m.group(1)
+
+def parse_section_rule(data_rs):
+    """the decision of Data::push_data between a 16 bit delta and a new full timestamp: `if diff CMP MAX_SMALL_TS { None } else { Some(..) }`"""
+    t = strip_comments(data_rs)
+    m = re.search(r"\.and_then\(\s*\|\s*diff\s*\|\s*\{\s*if\s+diff\s*(>=|<=|>|<)\s*MAX_SMALL_TS\s*\{\s*None\s*\}\s*else\s*\{\s*Some\(", t)
+    if not m:
+        raise NoMatch("`if diff CMP MAX_SMALL_TS { None } else { Some(..) }` in Data::push_data (series/data.rs)")
+    return m.group(1)
+
+def render(seek_rs, index_rs=None, data_rs=None):
     text = strip_comments(seek_rs)
     fs = parse_fn(text, "checked_start_time")
     fe = parse_fn(text, "checked_end_time")
@@ -179,11 +197,22 @@ def render(seek_rs):
     s += "From Coq Require Import List NArith.\nRequire Import BS.Common BS.Api.\n\n"
     s += "(* seek.rs checked_start_time / checked_end_time on a non-empty series whose first and last timestamps are `first` and `last` *)\n"
     s += coq_fn("gen_checked_start", fs) + "\n" + coq_fn("gen_checked_end", fe)
-    return s, {"start": {k: list(v) for k, v in fs["arms"].items()}, "end": {k: list(v) for k, v in fe["arms"].items()}}
+    summ = {"start": {k: list(v) for k, v in fs["arms"].items()}, "end": {k: list(v) for k, v in fe["arms"].items()}}
+    if index_rs is not None and data_rs is not None:
+        g = parse_in_gap(index_rs)
+        r = parse_section_rule(data_rs)
+        s = s.replace("Require Import BS.Common BS.Api.", "Require Import BS.Common BS.Api.\nRequire BSgen.Consts.")
+        s += "\n(* index.rs in_gap: is `val` further behind the full timestamp `gap_start` than a 16 bit delta reaches (u64 addition: Panic on overflow in the checked build) *)\n"
+        s += "Definition gen_in_gap (val gap_start:N) : res bool :=\n  do r <- u64_add gap_start BSgen.Consts.max_small_ts; Ok %s.\n" % (CMPS[g] % {"a": "val", "b": "r"})
+        s += "\n(* data.rs push_data: does a line `diff` behind the last full timestamp start a new section *)\n"
+        s += "Definition gen_starts_section (diff:N) : bool := %s.\n" % (CMPS[r] % {"a": "diff", "b": "BSgen.Consts.max_small_ts"})
+        summ["in_gap"] = g; summ["section_rule"] = r
+    return s, summ
 
 if __name__ == "__main__":
     import sys, os
     repo = os.environ.get("BS_REPO", "/repo")
-    out, summ = render(open(os.path.join(repo, "src/seek.rs")).read())
+    out, summ = render(open(os.path.join(repo, "src/seek.rs")).read(), open(os.path.join(repo, "src/series/data/index.rs")).read(),
+                       open(os.path.join(repo, "src/series/data.rs")).read())
     sys.stdout.write(out)
     sys.stderr.write(str(summ) + "\n")
